@@ -10,6 +10,7 @@ import KrillModel.Ca.LemmasShrink
 import KrillModel.Ca.LemmasTidyReach
 import KrillModel.Ca.Exchange
 import KrillModel.Ca.ExchangeLemmas
+import KrillModel.Ca.ExchangeRollConv
 namespace KM.Props.C02
 open KM KM.CaK KM.Res KM.AMap
 
@@ -386,17 +387,18 @@ and convergence is proved for concrete pairs covering each kind of entitlement c
 (`exchange_converges_instances`).  For an ARBITRARY reachable pair the statement is FALSE as it
 stands: `sync_stuck_after_parent_side_revocation`, `sync_stuck_with_request_limit`,
 `sync_alternates_with_non_injective_mapping`, `sync_misses_parent_side_reissue` (below) are
-reachable pairs on which `Pair.sync` never converges.  Proved for every reachable pair that
-satisfies the decidable coupling `Pair.coupled` (each conjunct excludes one of those pairs) and
-in which the child has no key roll in progress: `exchange_converges_quiet` (2 syncs when there
-is nothing to send), `exchange_converges_partial` (3 syncs from any such pair), with the
-`Sys`-level simulation of `Pair.sync` class by class in `Ca/ExchangeLemmas.lean`
-(`syncR_spec`, `syncE_spec`).  Still missing: the same with a key roll of the child in progress
-(the class-level machine `sync_converges_partial` covers it; at the pair level it additionally
-needs the old key to be still on file at the parent, see
-`sync_stuck_after_parent_side_revocation`, and `KeyRollActivate` to be accepted for all classes
-at once); hierarchies of more than two levels are composed by the lock-step run only; the
-parent's not-after rule is an input (`na`) of the model, the same for every class.
+reachable pairs on which `Pair.sync` never converges.  Proved for EVERY reachable pair that
+satisfies a decidable coupling (each conjunct excludes one of those pairs):
+`exchange_converges_quiet` (2 syncs when there is nothing to send) and
+`exchange_converges_partial` (3 syncs) for pairs without a key roll of the child in progress
+(`Pair.coupled`), `exchange_converges` (sync, sync, sync, activate, sync) for pairs with a key
+roll in ANY stage in any classes (`Pair.coupledRoll`); the `Sys`-level simulation of
+`Pair.sync` class by class – every class makes `KeyState.syncStep` or is untouched – is
+`syncR_spec` / `syncE_spec` (`Ca/ExchangeLemmas.lean`) and `syncR2_spec` / `syncE2_spec` /
+`activate_spec` (`Ca/ExchangeRoll*.lean`).  Still missing: hierarchies of more than two levels
+(composed by the lock-step run only); the parent's not-after rule is an input (`na`) of the
+model, the same for every class; in `exchange_converges` the child has no suspended child
+certificates and no other parent's class is waiting for its activation.
 -/
 
 /-- From every well-formed key state: two rounds of (sync, activate, sync) and two more syncs
@@ -552,9 +554,8 @@ theorem exchange_converges_quiet (x : Pair) (now na : Int) (f1 f2 : List KeyId)
   exact ⟨h.converged, h.sync_eq⟩
 
 /-
-Full statement (`exchange_converges`): as below, without `hnoroll`.  Missing: a key roll of the
-child in progress in some class under this parent (see the comment above
-`sync_converges_partial`).
+Full statement: as below, without `hnoroll` – that is `exchange_converges` further down (with
+the activation in the schedule and the coupling extended to the keys of the roll).
 -/
 
 /-- `sync_converges` for the pair, from ANY coupled pair of reachable aggregates without a key
@@ -644,6 +645,54 @@ theorem exchange_converges_instances_from_general :
   · exact (exchange_converges_quiet xMapped 10 900 [20] [] hmappedP
       (reachable_run .init _) (by decide) (by decide) (by decide) (by decide)).1
 
+/-! ### With a key roll of the child in progress -/
+
+/-- `sync_converges` for the pair, key rolls included: from ANY pair of reachable aggregates that
+satisfies `Pair.coupledRoll` – every class of the child in any key state (`Pending`, `Active`,
+`RollPending`, `RollNew`, `RollOld`) with any open requests, classes the parent no longer lists,
+listed classes the child does not have yet – the schedule sync, sync, sync, `KeyRollActivate`,
+sync ends converged: one `Active` class per listed class with exactly the entitled resources, no
+open request, the old keys revoked, the same certificate on file at the parent; every further
+sync changes nothing on either side.  New keys (pairwise different, not yet in use) are consumed
+by the one sync that fetches the entitlements. -/
+theorem exchange_converges (x : Pair) (now na na' : Int) (f1 f2 f3 f4 : List KeyId)
+    (hp : Reachable x.parent) (hc : Reachable x.child) (hcoupled : x.coupledRoll = true)
+    (hf : if x.child.ca.hasPendingRequests x.ph then x.parent.ca.classes.length ≤ f2.length ∧ x.freshOk f2 = true
+      else x.newClasses na ≤ f1.length ∧ x.freshOk f1 = true) :
+    (((x.syncs now na [f1, f2, f3]).activate na').sync now na f4).converged na = true ∧
+    ∀ f, (((x.syncs now na [f1, f2, f3]).activate na').sync now na f4).sync now na f =
+      ((x.syncs now na [f1, f2, f3]).activate na').sync now na f4 := by
+  obtain ⟨hc2, hoth⟩ := coupled2_of_bool hp hc hcoupled
+  have h := converges_roll hc2 hoth now na na' f1 f2 f3 f4 (by
+    split
+    · rename_i hpend
+      simp only [hpend, if_true] at hf
+      exact ⟨hf.1, freshOk_of_bool hf.2⟩
+    · rename_i hpend
+      simp only [hpend] at hf
+      exact ⟨hf.1, freshOk_of_bool hf.2⟩)
+  exact ⟨h.converged, h.sync_eq⟩
+
+/-- Non-vacuity: the child of `xRoll` in every stage of its key roll (`RollPending` with the
+request open, `RollNew`, `RollOld`), and the pairs without a roll, satisfy the coupling; the
+instance of `exchange_converges_instances` follows from the theorem. -/
+example :
+    let r1 := xRoll.sync 10 900 []
+    let r2 := r1.activate 900
+    (xRoll.child.ca.classes.map fun q => q.2.keys.variant) = [.rollPending] ∧
+    (r1.child.ca.classes.map fun q => q.2.keys.variant) = [.rollNew] ∧
+    (r2.child.ca.classes.map fun q => q.2.keys.variant) = [.rollOld] ∧
+    xRoll.coupledRoll = true ∧ r1.coupledRoll = true ∧ r2.coupledRoll = true ∧
+    xRoll.child.ca.hasPendingRequests xRoll.ph = true ∧
+    xRoll.parent.ca.classes.length ≤ [40].length ∧ xRoll.freshOk [40] = true ∧
+    xStart.coupledRoll = true ∧ xShrunk.coupledRoll = true ∧ xNothing.coupledRoll = true ∧
+    xRegain.coupledRoll = true ∧ xTwo.coupledRoll = true ∧ xMapped.coupledRoll = true := by decide
+
+theorem exchange_converges_roll_instance :
+    (((xRoll.syncs 10 900 [[], [40], []]).activate 900).sync 10 900 []).converged 900 = true :=
+  (exchange_converges xRoll 10 900 900 [] [40] [] [] xConv_coupled.inv.rp
+    (Reachable.step (.keyrollInit [(0, 30)]) xConv_coupled.inv.rc) (by decide) (by decide)).1
+
 /-! ### The hypotheses are necessary: reachable pairs on which `Pair.sync` never converges
 
 Common history (= `xConv`): the parent holds `{1,2,3,4}` in class 0 and entitles child 7 to
@@ -675,16 +724,19 @@ def xRevoked : Pair :=
 (`KeyUseNoIssuedCert`: the key is already marked revoked, the class still exists), the child
 stays in `RollOld` with its open request and therefore never fetches entitlements: the pair is
 a fixed point of `Pair.sync` that is not converged – the parent lists nothing for the child, the
-child keeps class 0 with certificates for `{1,2}` for ever.  What `noRollInProgress` (and, for
-the general statement, "the old key is still on file") excludes. -/
+child keeps class 0 with certificates for `{1,2}` for ever.  What `noParentSideRevocation` (in
+`Pair.coupledRoll`; `noRollInProgress` in the theorems without a roll) excludes. -/
 theorem sync_stuck_after_parent_side_revocation :
     Reachable xRevoked.parent ∧ Reachable xRevoked.child ∧ xRevoked.coupled = true ∧
-    xRevoked.noRollInProgress = false ∧
+    xRevoked.noRollInProgress = false ∧ xRevoked.noParentSideRevocation = false ∧
+    (xRevoked.keysWellFormed && xRevoked.keysDistinct && xRevoked.noSuspendedCerts &&
+      xRevoked.othersNotActivating && xRevoked.stayingCertsOnFile) = true ∧
     xRevoked.parent.exec (.childRevokeKey 7 0 20) = .refused .noIssuedCert ∧
     xRevoked.parent.ca.entitlementsFor 7 900 = [] ∧
     (xRevoked.child.ca.classes.map fun q => q.2.keys.variant) = [.rollOld] ∧
     ∀ fs, (xRevoked.syncs 10 900 fs).converged 900 = false := by
-  refine ⟨reachable_run .init _, reachable_run .init _, by decide, by decide, by decide, by decide, by decide, ?_⟩
+  refine ⟨reachable_run .init _, reachable_run .init _, by decide, by decide, by decide, by decide, by decide,
+    by decide, by decide, ?_⟩
   have hfix : ∀ f, xRevoked.sync 10 900 f = xRevoked := by
     intro f
     have hpend : xRevoked.child.ca.hasPendingRequests xRevoked.ph = true := by decide
